@@ -8,7 +8,10 @@ Structural clauses decided (shipped QueueScheduling backend only):
 by abstract interpretation of decide_new_state and its callees over SETS of
 task statuses (status alphabet read from TaskStatus, meaning of is_X read
 from Env.get_status); every row that returns PENDING must constrain ALL
-dependencies to {DONE, FAILED, SKIPPED};
+dependencies to {DONE, FAILED, SKIPPED}; REL-4: every row that returns
+WAITING leaves the task WAITING - a task still DONE from an earlier run that
+must wait for a re-executed dependency is demoted, otherwise ITS dependents see
+a final status and start before its execution of this run;
 (b) PUB: on every CFG path of one worker iteration no payload write
 (Env.apply, clocks) follows a status write that may be DONE unless both are in
 one atomic region of the environment lock - so for every interleaving the
@@ -32,7 +35,7 @@ ASSUMPTIONS = [
 
 
 def check(ctx):
-    ctx.run(sched_rel.check_rel, {'REL-1a'})
+    ctx.run(sched_rel.check_rel, {'REL-1a', 'REL-4'})
     ctx.run(sched_rel.check_enq)
     ctx.run(sched_rel.check_lock)
     ctx.run(sched_worker.check_pub)
